@@ -107,6 +107,15 @@ func loadConfig(via, home string, fl []KV, pass *string) (res loadResult) {
 		called := false
 		root, _ := newCommand(func(cmd *cobra.Command) error {
 			called = true
+			if via == "viper-bound" {
+				// the usual cobra+viper wiring: the application's viper has the command's flags bound
+				v := viper.New()
+				if err := v.BindPFlags(cmd.Flags()); err != nil {
+					return err
+				}
+				res.cfg, res.loadErr = config.LoadFromViper(v)
+				return nil
+			}
 			res.cfg, res.loadErr = config.Load(cmd)
 			return nil
 		})
@@ -127,6 +136,10 @@ func loadConfig(via, home string, fl []KV, pass *string) (res loadResult) {
 	}
 	return res
 }
+
+// lastDiffPath is the option at which the last failing precedence comparison deviated (the
+// checks are single-threaded; used by the two-loads check to name the leaking section).
+var lastDiffPath string
 
 type diff struct {
 	l         *leaf
@@ -176,8 +189,17 @@ func (sc Scenario) validate() bool {
 		}
 		seen["g:"+kv.Key] = true
 	}
-	return sc.Via == "load" || sc.Via == "viper"
+	return validVia(sc.Via)
 }
+
+// validVia: "load" = config.Load(cmd) inside the sub-command; "viper" = config.LoadFromViper on
+// a viper holding the given flags as explicit values; "viper-bound" = config.LoadFromViper on
+// a viper that has the parsed command's flags bound (BindPFlags).
+func validVia(via string) bool { return via == "load" || via == "viper" || via == "viper-bound" }
+
+var vias = []string{"load", "load", "load", "viper", "viper-bound"}
+
+func viaFor(i int) string { return vias[i%len(vias)] }
 
 func kindZero(l *leaf) any {
 	c := cloneConfig(pristine)
@@ -294,23 +316,30 @@ func runPrecedenceNoReset(sc Scenario, tmp string) world.Verdict {
 			continue
 		}
 		p := d.l.Path
+		lastDiffPath = p
+		at := func(class, what string) string { // signature: per option for Load, per entry point otherwise
+			if sc.Via == "load" {
+				return "C18/" + class + ":" + what
+			}
+			return "C18/" + class + "/" + sc.Via
+		}
 		def, _ := fieldOf(&pristine, d.l)
 		defText := textOf(def, d.l.Kind)
 		fileV, hasFile := sc.fileVal(p)
 		flagKV, hasFlag := flagOf[p]
 		switch {
 		case hasFlag && hasFile && sameValue(d.l.Kind, d.got, fileV):
-			return world.Fail("C18/file-beats-flag:"+p, "%s: %s is %s (the file value) although --%s=%s was given", desc, d.l.GoName, q(d.got), flagKV.Key, q(flagKV.Val))
+			return world.Fail(at("file-beats-flag", p), "%s: %s is %s (the file value) although --%s=%s was given", desc, d.l.GoName, q(d.got), flagKV.Key, q(flagKV.Val))
 		case hasFlag && sameValue(d.l.Kind, d.got, defText):
-			return world.Fail("C18/flag-ignored:"+flagKV.Key, "%s: %s kept its default %s although --%s=%s was given", desc, d.l.GoName, q(d.got), flagKV.Key, q(flagKV.Val))
+			return world.Fail(at("flag-ignored", flagKV.Key), "%s: %s kept its default %s although --%s=%s was given", desc, d.l.GoName, q(d.got), flagKV.Key, q(flagKV.Val))
 		case hasFlag:
 			return world.Fail("C18/flag-value-mangled/"+sc.Via+"/"+d.l.Kind, "%s: %s is %s, but --%s=%s was given", desc, d.l.GoName, q(d.got), flagKV.Key, q(flagKV.Val))
 		case hasFile && sameValue(d.l.Kind, d.got, defText):
-			return world.Fail("C18/file-key-ignored:"+p, "%s: %s kept its default %s although the file sets %s: %s", desc, d.l.GoName, q(d.got), d.l.YAMLPath, q(fileV))
+			return world.Fail(at("file-key-ignored", p), "%s: %s kept its default %s although the file sets %s: %s", desc, d.l.GoName, q(d.got), d.l.YAMLPath, q(fileV))
 		case hasFile:
 			return world.Fail("C18/file-value-mangled/"+d.l.Kind, "%s: %s is %s, but the file sets %s: %s", desc, d.l.GoName, q(d.got), d.l.YAMLPath, q(fileV))
 		default:
-			return world.Fail("C18/unset-option-changed:"+p, "%s: %s is %s, want its default %s (neither the file nor a flag sets it)", desc, d.l.GoName, q(d.got), q(d.want))
+			return world.Fail(at("unset-option-changed", p), "%s: %s is %s, want its default %s (neither the file nor a flag sets it)", desc, d.l.GoName, q(d.got), q(d.want))
 		}
 	}
 	if len(orphanFlags) == 0 && !reflect.DeepEqual(want, got) {
@@ -471,7 +500,7 @@ func genSetting(t *rapid.T) setting {
 }
 
 func genScenario(t *rapid.T) Scenario {
-	sc := Scenario{Via: rapid.SampledFrom([]string{"load", "load", "load", "viper"}).Draw(t, "via")}
+	sc := Scenario{Via: rapid.SampledFrom(vias).Draw(t, "via")}
 	used := map[string]bool{}
 	min := 1
 	if rapid.IntRange(0, 19).Draw(t, "empty") == 0 {
@@ -514,7 +543,7 @@ func TestC18EveryFieldFromFile(t *testing.T) {
 			continue
 		}
 		for i, v := range tableValues(oi, o.l.Kind, o.l.Bits) {
-			scs = append(scs, Scenario{Via: "load", File: []KV{{Key: o.l.Path, Val: v, Style: []string{"dq", "plain", "sq"}[i%3]}}})
+			scs = append(scs, Scenario{Via: viaFor(i / 3), File: []KV{{Key: o.l.Path, Val: v, Style: []string{"dq", "plain", "sq"}[i%3]}}})
 		}
 	}
 	world.Enumerate(t, "C18", "every-field-from-file", scs, false, func(sc Scenario) world.Verdict { return runPrecedence(sc, tmp) })
@@ -531,11 +560,7 @@ func TestC18EveryFlagAlone(t *testing.T) {
 		}
 		kind, bits := o.kindBits()
 		for i, v := range tableValues(oi, kind, bits) {
-			via := "load"
-			if i%5 == 4 {
-				via = "viper"
-			}
-			scs = append(scs, Scenario{Via: via, Flags: []KV{{Key: o.f.Name, Val: v}}})
+			scs = append(scs, Scenario{Via: viaFor(i), Flags: []KV{{Key: o.f.Name, Val: v}}})
 		}
 	}
 	world.Enumerate(t, "C18", "every-flag-alone", scs, false, func(sc Scenario) world.Verdict { return runPrecedence(sc, tmp) })
@@ -554,11 +579,7 @@ func TestC18EveryFlagOverFile(t *testing.T) {
 		kind, bits := o.kindBits()
 		vals := tableValues(oi, kind, bits)
 		for i, v := range vals {
-			via := "load"
-			if i%5 == 4 {
-				via = "viper"
-			}
-			scs = append(scs, Scenario{Via: via, File: []KV{{Key: o.l.Path, Val: v, Style: "dq"}}, Flags: []KV{{Key: o.f.Name, Val: vals[(i+1)%len(vals)]}}})
+			scs = append(scs, Scenario{Via: viaFor(i), File: []KV{{Key: o.l.Path, Val: v, Style: "dq"}}, Flags: []KV{{Key: o.f.Name, Val: vals[(i+1)%len(vals)]}}})
 		}
 	}
 	world.Enumerate(t, "C18", "every-flag-over-file", scs, false, func(sc Scenario) world.Verdict { return runPrecedence(sc, tmp) })
@@ -583,7 +604,7 @@ func runSaveLoad(sc SaveScenario, tmp string) world.Verdict {
 		}
 		seen[kv.Key] = true
 	}
-	if sc.Via != "load" && sc.Via != "viper" {
+	if !validVia(sc.Via) {
 		return world.Verdict{Excluded: true}
 	}
 	resetDefaults()
@@ -671,7 +692,7 @@ func runSaveLoad(sc SaveScenario, tmp string) world.Verdict {
 }
 
 func genSaveScenario(t *rapid.T) SaveScenario {
-	sc := SaveScenario{Via: rapid.SampledFrom([]string{"load", "load", "viper"}).Draw(t, "via")}
+	sc := SaveScenario{Via: rapid.SampledFrom(vias).Draw(t, "via")}
 	var cand []*leaf
 	for i := range leaves {
 		if !exemptFields[leaves[i].GoName] {
@@ -705,7 +726,7 @@ func TestC18SaveLoadEveryField(t *testing.T) {
 			continue
 		}
 		for _, v := range tableValues(oi, o.l.Kind, o.l.Bits) {
-			scs = append(scs, SaveScenario{Via: "load", Values: []KV{{Key: o.l.Path, Val: v}}})
+			scs = append(scs, SaveScenario{Via: viaFor(len(scs)), Values: []KV{{Key: o.l.Path, Val: v}}})
 		}
 	}
 	world.Enumerate(t, "C18", "save-load-every-field", scs, false, func(sc SaveScenario) world.Verdict { return runSaveLoad(sc, tmp) })
@@ -742,20 +763,19 @@ func runTwice(sc TwiceScenario, tmp string) world.Verdict {
 	if v1.Excluded || v1.Violation != "" {
 		return world.Verdict{Excluded: true} // reported by the single-load checks
 	}
+	lastDiffPath = ""
 	v2 := runPrecedenceNoReset(sc.Second, tmp)
 	if v2.Excluded {
 		return v2
 	}
 	if v2.Violation != "" {
+		leakAt := lastDiffPath
 		alone := runPrecedence(sc.Second, tmp)
 		if alone.Violation != "" {
 			return world.Verdict{Excluded: true} // fails on its own: reported by the single-load checks
 		}
-		sig := "C18/earlier-load-leaks"
-		if i := strings.LastIndex(v2.Signature, ":"); i >= 0 {
-			section, _, _ := strings.Cut(v2.Signature[i+1:], ".")
-			sig += ":" + section
-		}
+		section, _, _ := strings.Cut(leakAt, ".")
+		sig := "C18/earlier-load-leaks:" + section
 		return world.Fail(sig, "after loading %s in the same process, a second load deviates (alone it is correct): %s", describe(sc.First), v2.Violation)
 	}
 	nt := len(sc.First.File)+len(sc.First.Flags) > 0
@@ -768,7 +788,7 @@ func TestC18LoadTwice(t *testing.T) {
 	gen := func(t *rapid.T) TwiceScenario {
 		sc := TwiceScenario{First: genScenario(t)}
 		if rapid.Bool().Draw(t, "second-empty") {
-			sc.Second = Scenario{Via: rapid.SampledFrom([]string{"load", "viper"}).Draw(t, "via2")}
+			sc.Second = Scenario{Via: rapid.SampledFrom(vias).Draw(t, "via2")}
 		} else {
 			sc.Second = genScenario(t)
 		}
